@@ -162,7 +162,7 @@ impl Prop for C13 {
     fn describe(&self) -> Describe {
         Describe {
             level: "exploration",
-            rule: "each case = one seeded run of 2-4 complete litep2p nodes (request-response protocol) on SimNet: materialised request/cancel/connect operations, fault plan, scheduler kind and knobs; a run is non-trivial if the scheduler had >=1 choice point (>=2 runnable tasks); distinct = distinct trace hash (scheduler decisions + every recorded event with its virtual timestamp)".into(),
+            rule: "each case = one seeded run of 2-4 complete litep2p nodes (request-response protocol) on SimNet: materialised request/cancel/connect operations, fault plan (resets, half-closes, byte-offset cuts, partitions, refused / black-holed / slow connects, node kill with reset or silent vanish, crash + restart with the same identity, process stalls), scheduler kind and knobs; a run is non-trivial if the scheduler had >=1 choice point (>=2 runnable tasks); distinct = distinct trace hash (scheduler decisions + every recorded event with its virtual timestamp)".into(),
             real: vec!["Litep2p", "TransportManager", "TcpTransport/TcpConnection", "multistream-select", "Noise", "yamux", "RequestResponseProtocol + handle", "TransportService"],
             stub: vec!["socket layer (SimNet)", "clock (paused tokio clock mirrored into clock_gettime)", "task scheduler (seeded)", "HashMap seeds (getrandom seam)"],
             assumptions: vec![
